@@ -22,6 +22,10 @@ fn table() -> Vec<(&'static str, Options, Option<Value>)> {
         ("nilx", base().with_nil_symbol(NilSymbol::Special), sy("nilx")), ("tt", base().with_t_symbol(TSymbol::True), sy("tt")),
         ("t", base(), sy("t")), ("t", base().with_t_symbol(TSymbol::True), Some(Value::Bool(true))),
         (":k", base(), sy(":k")), (":k", base().with_keyword_syntax(KeywordSyntax::ColonPrefix), kw("k")),
+        ("::a", base().with_keyword_syntax(KeywordSyntax::ColonPrefix), kw(":a")), ("::", base().with_keyword_syntax(KeywordSyntax::ColonPrefix), kw(":")), ("::a", base(), sy("::a")),
+        (":a:", base().with_keyword_syntax(KeywordSyntax::ColonPrefix), kw("a:")),
+        ("#\\space", base().with_char_syntax(CharSyntax::Elisp), Some(Value::Char(' '))), ("#\\x41", base().with_char_syntax(CharSyntax::Elisp), Some(Value::Char('A'))), ("#\\a", Options::elisp(), Some(Value::Char('a'))),
+        ("#\\space", base(), Some(Value::Char(' '))), ("?a", Options::elisp(), Some(Value::Char('a'))),
         ("k:", base(), sy("k:")), ("k:", base().with_keyword_syntax(KeywordSyntax::ColonPostfix), kw("k")),
         ("nil:", base().with_keyword_syntax(KeywordSyntax::ColonPostfix).with_nil_symbol(NilSymbol::Special), kw("nil")),
         ("#:k", base(), None), ("#:k", base().with_keyword_syntax(KeywordSyntax::Octothorpe), kw("k")),
